@@ -17,6 +17,9 @@ TRN_TOKENS = [
     "=", "+", "~", "^", "|", "\\", "a:b", "`", "$", "-", "_", "…", "A", "B'", "0",
 ]
 _TRN_CHARS = "abcXYZ019@;.,'\"-_<>[]*#%&!?=+~^|\\:`$éß日☃"
+# trn only: the format's one blank delimiter is the ASCII space; other Unicode space characters are ordinary
+# token characters (e.g. the no-break space of French numbers)
+TRN_SPACEY = ["10\u00a0000", "a\u3000b", "x\u202fy"]  # never at a token edge: lines are str.strip()ped
 # ctm: white-space separated fields, ';;' starts a comment
 CTM_TOKENS = [t for t in TRN_TOKENS if ";;" not in t] + ["(", ")", "{x}", "a/b", "/"]
 _CTM_CHARS = _TRN_CHARS.replace(";", "") + "(){}/"
@@ -71,7 +74,7 @@ def _gen_alt(rng, depth):
             if depth > 1 and (rng.random() < 0.25 or (a == force and j == 0)):
                 alt.append({"alt": _gen_alt(rng, depth - 1)})
             else:
-                alt.append(_tok(rng, TRN_TOKENS, _TRN_CHARS))
+                alt.append(_tok(rng, TRN_TOKENS + TRN_SPACEY, _TRN_CHARS))
         alts.append(alt)
     return alts
 
@@ -110,7 +113,7 @@ def gen_trn(rng, tier, cls, i):
                 # a placeholder-timed alternate next to timed tokens
                 tr.append({"alt": _gen_alt(rng, 1)})
             else:
-                tr.append(_tok(rng, TRN_TOKENS, _TRN_CHARS))
+                tr.append(_tok(rng, TRN_TOKENS + TRN_SPACEY, _TRN_CHARS))
         utts.append([u, tr])
     case = {"family": "trn", "class": cls, "utts": utts, "warn": rng.random() < 0.3,
             "blank_lines": rng.random() < 0.3}
